@@ -179,6 +179,10 @@ def check(repo, rep, tier):
     r_templates_constant(repo, rep, 'R8.6', repo.py_files('depccg/printer'),
                          'a word that contains { or } (the escaped spelling of a brace is -LCB- / -RCB-, but read_auto keeps a raw one) makes the line raise or come out '
                          'with a field replaced, so the line that is printed is not the one the encoder produced')
+    rep.rule('R8.7', 'the reader labels every binary node by running the rules of the active grammar on its children (guess_combinator_by_triplet): those run on the '
+             'categories of either language -- a member read on a feature exists on both feature classes or is guarded')
+    from .c14 import r_feature_methods
+    r_feature_methods(repo, rep, 'R8.7')
     am = repo.module(AUTO)
     p, (lst, leaf), (nst, node) = writer_templates(am, 'auto_of')
     ltoks = codec.fstr_tokens(leaf)
